@@ -26,6 +26,10 @@ CLAIMED = {
     'C10': ('other', 'Post-conditions of the real samplers and selectors for all coefficient vectors without ties and temperatures in [0.05,20], '
             'from an arbitrary previous state (induction over histories of option updates / forward passes); lengths 1..4 enumerated. One '
             'known finding (SuperNet eval-mode soft sampling).', '3 C10'),
+    'C11': ('proof', 'Exact-effect post-conditions of train_nas_only/train_net_only/train_net_and_nas, the PIT train_features/rf/dilation and '
+            'discrete_cost switches and every update_softmax_options level, from an arbitrary (symbolic) previous trainability / option state, '
+            'plus preservation of the frozen-mask invariant and the partition of parameters: induction over all call sequences on one '
+            'representative wrapper per method (structure concrete, convert() under an assumed contract).', '3 C11'),
 }
 NA = {
     'C03': 'graph surgery on the torch.fx IR (export_graph): no contract on a plinio function can state it without a hand model of fx; its two '
